@@ -214,3 +214,15 @@ Ltac splits :=
       end
   end.
 Ltac bridge := norm; splits; pows; try reflexivity; try lia.
+
+(* ---- tuples of loop states: projections by position, so that loop lemmas are stated for any state type ---- *)
+Ltac fsts k s := lazymatch k with O => s | S ?k' => let t := constr:(fst s) in fsts k' t end.
+Ltac tuple_arity T := lazymatch T with (?A * _)%type => let k := tuple_arity A in constr:(S k) | _ => constr:(1%nat) end.
+(* component i (0-based) of the left-nested tuple type T with n components, as a function *)
+Ltac tuple_proj T n i :=
+  let d := eval compute in (n - 1 - i)%nat in
+  constr:(fun s : T => ltac:(let t := fsts d s in lazymatch i with O => exact t | _ => exact (snd t) end)).
+Ltac destruct_pairs := repeat match goal with x : (_ * _)%type |- _ => destruct x end.
+(* tac k for k = n-1, .., 0 until one succeeds *)
+Ltac upto n tac := lazymatch n with O => fail | S ?k => first [ tac k | upto k tac ] end.
+Ltac neq_nat a b := lazymatch eval compute in (Nat.eqb a b) with false => idtac end.
